@@ -61,7 +61,7 @@ def variants(rec):
 
 
 def nontrivial(rec):
-    return rec["ok"] and bool(kinds_of(rec) & {"repeat", "insert", "end", "include"})
+    return rec["ok"] and bool(kinds_of(rec) & {"repeat", "insert", "end", "include", "linkinc"})
 
 
 def main(run):
@@ -69,7 +69,8 @@ def main(run):
     run.rule = ("programs written by TLC over StructAlphabet: 13 .repeat forms (n = 0..3, bodies with '.', with / % << >> of '.', hoisted "
                 "index expressions 2+2(r3) and c+2(r3), branches to an outer local label, nested repeats, .even and .blkb of '.', sob, "
                 "label/constant inside a body = error; a second small alphabet with n = 17, 33 (nested) and 40), insert_file of 0/7/300 bytes, .end, two includable files (one with .once and an "
-                "export, one ending early with junk behind .end), 1-2 linked files; each accepted program also as unrolled / inlined / "
+                "export, one ending early with junk behind .end, one in a sub-directory that inserts a file named like one next to the main file but with other "
+                "contents), 1-2 linked files, an includable file also named on the command line; each accepted program also as unrolled / inlined / "
                 "concatenated variant; non-trivial = accepted program containing .repeat, insert_file, .end or .include")
     bases = [512, 1026]
     opts = {"harness_link": True}
@@ -103,6 +104,7 @@ def main(run):
     tasks += go("StructBigAlphabet", 3 if thorough else 2, 1, bases, "AsmCore struct, large repeat counts 17/33/40 (exhaustive)")
     tasks += go("StructAlphabet", 2, 2, [512], "AsmCore struct, 2 files x 2 stmts with LinkIsConcatenation (" + ("exhaustive" if thorough else "simulation") + ")",
                 extra=("concat",), timeout=6000, simulate=None if thorough else 800, depth=None if thorough else 6, seed=run.seed + 2)
+    tasks += go("StructDirAlphabet", 3 if thorough else 2, 2, [512], "AsmCore struct, same-named inserted files in two directories and linked includable files (exhaustive)")
     tasks += go("StructAlphabet", 5, 2, bases, "AsmCore struct simulation (<= 5 stmts x 2 files)", simulate=(5000 if thorough else 250), depth=11,
                 seed=run.seed + 17)
     run.note("variants_checked", counts)
